@@ -4,6 +4,13 @@ import Mathlib.Tactic.LinearCombination
 namespace DadiVerif
 open Gen
 
+/-- a test `γ == 0` does not see the reference size -/
+theorem div_beq_zero (g k : ℚ) (hk : k ≠ 0) : (g / k == 0) = (g == 0) := by
+  by_cases h : g = 0
+  · simp [h]
+  · have : g / k ≠ 0 := div_ne_zero h hk
+    simp [h, this]
+
 /-! ### time-step rule -/
 theorem ratMax_div (a b k : ℚ) (hk : 0 < k) : ratMax (a / k) (b / k) = ratMax a b / k := by
   unfold ratMax
